@@ -49,7 +49,50 @@ func genOp(n int) *rapid.Generator[Op] {
 	})
 }
 
+// genBig draws a case over 300 endpoints: long lists (rotations with a stride), reports for high indices.
+func genBig(t *rapid.T) *Case {
+	list := func(label string) []int {
+		n := rapid.SampledFrom([]int{1, 2, 255, 256, 257, 258, 300}).Draw(t, label+"len")
+		start := rapid.IntRange(0, 299).Draw(t, label+"start")
+		stride := rapid.SampledFrom([]int{1, 7, 299, 113}).Draw(t, label+"stride")
+		l := make([]int, 0, n)
+		for i := 0; i < n; i++ {
+			l = append(l, (start+i*stride)%300)
+		}
+		return l
+	}
+	c := &Case{NameSet: 2, R: rapid.SampledFrom(rs).Draw(t, "R"), D: rapid.SampledFrom(ds).Draw(t, "D"), Init: list("init")}
+	c.Ops = rapid.SliceOfN(rapid.Custom(func(t *rapid.T) Op {
+		switch rapid.IntRange(0, 5).Draw(t, "bk") {
+		case 0:
+			return Op{K: "set", L: list("set")}
+		case 1:
+			return Op{K: "advfire"}
+		default:
+			e := rapid.IntRange(0, 299).Draw(t, "be")
+			if rapid.Bool().Draw(t, "edge") {
+				e = rapid.SampledFrom([]int{0, 1, 254, 255, 256, 257, 299}).Draw(t, "bedge")
+			}
+			return Op{K: "avail", E: e, B: rapid.IntRange(0, 3).Draw(t, "bb") != 0}
+		}
+	}), 1, 12).Draw(t, "bops")
+	c.Ops = append(c.Ops, Op{K: "quiesce"})
+	return c
+}
+
 func genCase(t *rapid.T) *Case {
+	switch rapid.IntRange(0, 19).Draw(t, "nameset") {
+	case 0:
+		return genBig(t)
+	case 1, 2:
+		c := genCase0(t)
+		c.NameSet = 1
+		return c
+	}
+	return genCase0(t)
+}
+
+func genCase0(t *rapid.T) *Case {
 	n := rapid.IntRange(1, 5).Draw(t, "n")
 	c := &Case{
 		R:    rapid.SampledFrom(rs).Draw(t, "R"),
